@@ -1,0 +1,43 @@
+//go:build verif
+// +build verif
+
+package app
+
+import (
+	"github.com/cosmos/cosmos-sdk/codec"
+	sdk "github.com/cosmos/cosmos-sdk/types"
+	"github.com/cosmos/cosmos-sdk/types/module"
+	sdkauthkeeper "github.com/cosmos/cosmos-sdk/x/auth/keeper"
+	distrkeeper "github.com/cosmos/cosmos-sdk/x/distribution/keeper"
+	paramskeeper "github.com/cosmos/cosmos-sdk/x/params/keeper"
+	slashingkeeper "github.com/cosmos/cosmos-sdk/x/slashing/keeper"
+
+	bankkeeper "github.com/certikfoundation/shentu/x/bank/keeper"
+	certkeeper "github.com/certikfoundation/shentu/x/cert/keeper"
+	cvmkeeper "github.com/certikfoundation/shentu/x/cvm/keeper"
+	govkeeper "github.com/certikfoundation/shentu/x/gov/keeper"
+	mintkeeper "github.com/certikfoundation/shentu/x/mint/keeper"
+	oraclekeeper "github.com/certikfoundation/shentu/x/oracle/keeper"
+	shieldkeeper "github.com/certikfoundation/shentu/x/shield/keeper"
+	stakingkeeper "github.com/certikfoundation/shentu/x/staking/keeper"
+)
+
+// Read-only accessors used by the verification harness (build tag "verif").
+// They expose the keepers of the real application so that the harness can
+// observe the state after every transaction and block.
+
+func (app *CertiKApp) VerifAccountKeeper() sdkauthkeeper.AccountKeeper { return app.accountKeeper }
+func (app *CertiKApp) VerifBankKeeper() bankkeeper.Keeper              { return app.bankKeeper }
+func (app *CertiKApp) VerifStakingKeeper() stakingkeeper.Keeper        { return app.stakingKeeper }
+func (app *CertiKApp) VerifSlashingKeeper() slashingkeeper.Keeper      { return app.slashingKeeper }
+func (app *CertiKApp) VerifMintKeeper() mintkeeper.Keeper              { return app.mintKeeper }
+func (app *CertiKApp) VerifDistrKeeper() distrkeeper.Keeper            { return app.distrKeeper }
+func (app *CertiKApp) VerifParamsKeeper() paramskeeper.Keeper          { return app.paramsKeeper }
+func (app *CertiKApp) VerifGovKeeper() govkeeper.Keeper                { return app.govKeeper }
+func (app *CertiKApp) VerifCertKeeper() certkeeper.Keeper              { return app.certKeeper }
+func (app *CertiKApp) VerifCvmKeeper() cvmkeeper.Keeper                { return app.cvmKeeper }
+func (app *CertiKApp) VerifOracleKeeper() oraclekeeper.Keeper          { return app.oracleKeeper }
+func (app *CertiKApp) VerifShieldKeeper() shieldkeeper.Keeper          { return app.shieldKeeper }
+func (app *CertiKApp) VerifModuleManager() *module.Manager             { return app.mm }
+func (app *CertiKApp) VerifAppCodec() codec.Marshaler                  { return app.appCodec }
+func (app *CertiKApp) VerifStoreKey(name string) *sdk.KVStoreKey       { return app.keys[name] }
